@@ -61,13 +61,10 @@ def build(E):
         return "[C13,C18]" in name or "[INV,C13]" in name or "[C13]" in name      # protocol events: faithful result, future always resolved
     spec.keep = keep
     # the downstream side: "exactly one well-formed response" while the (asynchronous) proxy handler is waiting for the upstream is
-    # the server protocol's class invariant (C01): in particular no request timer can fire once a complete request is being answered
+    # the server protocol's class invariant (C01): in particular no request timer can fire once a complete request is being answered.
+    # Verified as a sub-specification in an engine of its own (its event-loop and certificate models differ from the client's).
     from contracts import server_events
-    k18 = spec.keep
-    server_events.build_for(E, spec, "C18")
-    kev = spec.keep
-    SP = "nauyaca.server.protocol:GeminiServerProtocol."
-    spec.keep = lambda name: kev(name) if name.startswith(SP) else k18(name)
+    spec.subs = [server_events.as_sub("C18")]
     spec.trusted += ["(4) _encode_response writes a bytes body unchanged after '<status> <meta>CRLF' - proved under C01/C06, used here as a contract",
                      "E3 for the upstream connection; the downstream side (one response, close) is C01"]
     return spec
